@@ -7,7 +7,7 @@ import re
 import subprocess
 import time
 
-VERIF = "/verif"
+VERIF = os.environ.get("VERIF_HOME", "/verif")
 COQDIR = os.path.join(VERIF, "coq")
 THEORIES = os.path.join(COQDIR, "theories")
 
@@ -166,7 +166,7 @@ def check_obligations_one(ctx, props_file, extra=()):
     t0 = time.time()
     thms = theorems_of(props_file)
     res = {"obligations": len(thms), "discharged": 0, "theorems": {},
-           "checker_cmd": f"cd /verif/coq && make -j16 theories/{props_file}.vo && coqc -Q theories QV theories/{props_file}.v"
+           "checker_cmd": f"cd {VERIF}/coq && make -j16 theories/{props_file}.vo && coqc -Q theories QV theories/{props_file}.v"
                           "   (full .vo build; Print Assumptions under every theorem)",
            "trusted_base": []}
     bad = scan_forbidden()
